@@ -1639,7 +1639,8 @@ def run_fault(fl, role, index, inject, after, seed):
         xr = r[0] if role == 'client' else r[1]
         s = X.session
         return dict(X=classify(xr), closed=bool(X.closed), resumable=None if s is None else bool(s.resumable),
-                    unread=len(xsock.inbuf))
+                    # bytes not consumed by the TLS layer: still in the pipe or in BufferedSocket's read-ahead
+                    unread=len(xsock.inbuf) + len(getattr(X.sock, '_read_buffer', b'')))
     finally:
         clock.uninstall()
         epr.uninstall()
